@@ -38,9 +38,168 @@ def run(chk: Check) -> None:
         st = res["steps"][0]
         if CLAUSE in vd[st["trace"]["id"]]:
             chk.violation(f"C02|seq|{runspace.vkey(scn['_v'])}", f"sequence {runspace.vkey(scn['_v'])}: {st['notes'][:2]}", {"vector": scn["_v"], "files": scn["files"]})
+    check_import_use(chk)
     chk.sample({"codemod": scenarios[0]["_codemod"], "variants": [progspace.vec_key(m["vector"]) for m in list(scenarios[0]["_metas"].values())[:8]]})
     chk.assumptions += ["unresolved(.) is computed with symtable + builtins; files with a star import are not judged",
                         "programs outside seeds x generic variations are not covered"]
+
+
+# ---------------------------------------------------------------------------------------------------------------
+# ImportUse.tla: one imported name, one way of using it
+_IMPORTS = {   # form -> (statement, bound name N, expression R that reads it and evaluates to a class)
+    "import": ("import json", "json", "json.JSONDecoder"),
+    "import-as": ("import json as j", "j", "j.JSONDecoder"),
+    "from": ("from json import JSONDecoder", "JSONDecoder", "JSONDecoder"),
+    "from-as": ("from json import JSONDecoder as JD", "JD", "JD"),
+    "dotted": ("import json.decoder", "json", "json.decoder.JSONDecoder"),
+    "dotted-as": ("import json.decoder as jd", "jd", "jd.JSONDecoder"),
+    "from-pair": ("from json import JSONDecoder, JSONEncoder", "JSONDecoder", "JSONDecoder"),
+    "import-pair": ("import sys, json", "json", "json.JSONDecoder"),
+    "from-paren": ("from json import (\n    JSONEncoder,\n    JSONDecoder,\n)", "JSONDecoder", "JSONDecoder"),
+}
+_PRAGMAS = {"noqa": "# noqa", "noqa-code": "# noqa: F401", "pylint": "# pylint: disable=unused-import"}
+_MISSING = "print([n for n in __all__ if n not in globals()])"
+
+
+def _use_text(use: str, N: str, R: str) -> str:
+    return {
+        "none": "print('x')",
+        "load": f"print({R}.__name__)",
+        "nested-func": f"def f():\n    def g():\n        return {R}\n    return g()\nprint(f().__name__)",
+        "class-body": f"class C:\n    v = {R}\nprint(C.v.__name__)",
+        "decorator": f"def deco(v):\n    return lambda fn: fn\n@deco({R})\ndef f():\n    return 1\nprint(f())",
+        "default-arg": f"def f(a={R}):\n    return a\nprint(f().__name__)",
+        "annotation": f"def f(a: {R}):\n    return None\nprint(f.__annotations__['a'].__name__)",
+        "return-annotation": f"def f() -> {R}:\n    return None\nprint(f.__annotations__['return'].__name__)",
+        "fstring": f"print(f'{{{R}.__name__}}')",
+        "comprehension": f"print([{R}.__name__ for _ in range(2)])",
+        "lambda": f"g = lambda: {R}\nprint(g().__name__)",
+        "del": f"del {N}\nprint('x')",
+        "global-func": f"def f():\n    global {N}\n    return {R}\nprint(f().__name__)",
+        "except": f"try:\n    pass\nexcept {R}:\n    pass\nprint('x')",
+        "base-class": f"class D({R}):\n    pass\nprint(D.__mro__[1].__name__)",
+        "attr-assign": f"{R}.zzz = 1\nprint({R}.zzz)",
+        "walrus": f"if (v := {R}):\n    print(v.__name__)",
+        "str-annotation": f"def f(a: '{R}'):\n    return None\nprint(eval(f.__annotations__['a']).__name__)",
+        "all-literal": f"__all__ = ['{N}']\n{_MISSING}",
+        "all-tuple": f"__all__ = ('{N}',)\n{_MISSING}",
+        "all-aug": f"__all__ = []\n__all__ += ['{N}']\n{_MISSING}",
+        "all-append": f"__all__ = []\n__all__.append('{N}')\n{_MISSING}",
+        "all-extend": f"__all__ = []\n__all__.extend(['{N}'])\n{_MISSING}",
+        "all-concat": f"_base = []\n__all__ = _base + ['{N}']\n{_MISSING}",
+        "shadow-param": f"def f({N}):\n    return {N}\nprint(f(2))",
+        "rebind-before": f"{N} = 3\nprint({N})",
+        "other-name": f"v = ['{N}']\nprint(v)",
+    }[use]
+
+
+def _ind(text: str) -> str:
+    return "\n".join("    " + ln for ln in text.split("\n"))
+
+
+def _import_program(p: dict) -> tuple[str, str]:
+    stmt, N, R = _IMPORTS[p["form"]]
+    lines = stmt.split("\n")
+    if p["pragma"] in _PRAGMAS:
+        lines[0] += "  " + _PRAGMAS[p["pragma"]]
+    elif p["pragma"] == "pylint-next":
+        lines.insert(0, "# pylint: disable-next=unused-import")
+        if p["place"] == "module":
+            lines.insert(0, "import os.path  # (comments above the first statement of a file belong to the file, not to the statement)\nprint(os.path.sep)")
+    stmt = "\n".join(lines)
+    other = {"from-pair": "print(JSONEncoder.__name__)", "from-paren": "print(JSONEncoder.__name__)", "import-pair": "print(sys.flags.isolated)"}.get(p["form"])
+    use = _use_text(p["use"], N, R)
+    if other:
+        use = other + "\n" + use
+    place = p["place"]
+    if place == "module":
+        text = f"{stmt}\n{use}"
+    elif place == "function":
+        text = f"def main():\n{_ind(stmt)}\n{_ind(use)}\nmain()"
+    elif place == "class":
+        text = f"class K:\n{_ind(stmt)}\n{_ind(use)}"
+    elif place == "try":
+        text = f"try:\n{_ind(stmt)}\nexcept ImportError:\n    {N} = None\n{use}"
+    else:
+        text = f"import os\nif os.sep:\n{_ind(stmt)}\nelse:\n    {N} = None\n{use}"
+    return text + "\n", N
+
+
+def _import_bound(text: str) -> set:
+    import ast
+
+    out = set()
+    for n in ast.walk(ast.parse(text)):
+        if isinstance(n, (ast.Import, ast.ImportFrom)):
+            for a in n.names:
+                out.add(a.asname or a.name.split(".")[0])
+    return out
+
+
+def check_import_use(chk: Check) -> None:
+    """ImportUse.tla: (import form x place x use x file x pragma); TLC decides that the removal rule removes unused
+    imports only; the real codemod is compared with the rule, and every program is executed before and after."""
+    import random
+    from concurrent.futures import ThreadPoolExecutor
+
+    from .. import gen, runner, tlc, tracecheck
+    from .c08 import _execute
+
+    res = gen.run_generator("ImportUse", None, None, cfg="ImportUse.cfg")
+    chk.add_tlc(res)
+    cases = [(st["p"], st["exp"]) for st in res.dump if st["st"] == "done"]
+    cases.sort(key=lambda x: json.dumps(x[0], sort_keys=True))
+    if chk.quick:
+        # every way of exporting; a seeded sample of the pragma / __init__ programs and of the rest
+        rnd = random.Random(chk.seed + 5)
+        exports = [c for c in cases if c[0]["use"].startswith("all-") and c[0]["pragma"] == "none" and c[0]["file"] == "mod"]
+        special = [c for c in cases if c not in exports and (c[0]["pragma"] != "none" or c[0]["file"] == "init")]
+        rest = [c for c in cases if c not in exports and c not in special]
+        cases = exports + rnd.sample(special, 90) + rnd.sample(rest, 220)
+    files, names = {}, {}
+    for i, (p, _e) in enumerate(cases):
+        rel = f"pkg{i:04d}/__init__.py" if p["file"] == "init" else f"u{i:04d}.py"
+        files[rel], names[rel] = _import_program(p)
+    rels = list(files)
+    per = max(1, (len(rels) + 15) // 16)
+    scns = [{"id": f"C02-importuse-{b // per}", "files": {r: files[r] for r in rels[b : b + per]},
+             "steps": [{"argv": ["{dir}", "--output", "{out}", "--codemod-include", "pixee:python/unused-imports"], "keep_after": True}]}
+            for b in range(0, len(rels), per)]
+    sts = [r["steps"][0] for r in runner.run_many(scns)]
+    after_all = {}
+    for st_ in sts:
+        after_all.update(st_["after"])
+    jobs = [(p, e, rel, files[rel], after_all.get(rel, files[rel])) for (p, e), rel in zip(cases, rels)]
+    with ThreadPoolExecutor(max_workers=16) as ex:
+        outs = list(ex.map(lambda j: (_execute(j[3]), _execute(j[4]) if j[4] != j[3] else None), jobs))
+    ok, deviates, removed_n = True, 0, 0
+    dev_shapes = []
+    for (p, e, rel, before, after), (o1, o2) in zip(jobs, outs):
+        chk.count()
+        shape = "/".join(p[k] for k in ("form", "place", "use", "file", "pragma"))
+        if "EXC" in o1 or "rc=0" not in o1:
+            raise tlc.TlcFailure(f"the generated import program [{shape}] does not run: {o1[:300]}\n{before}")
+        removed = names[rel] not in _import_bound(after)
+        if removed:
+            removed_n += 1
+        if removed or e["inuse"]:
+            chk.nontrivial(shape)
+        if removed != bool(e["removes"]):
+            deviates += 1
+            dev_shapes.append((shape, removed))
+        if (removed and e["inuse"]) or (o2 is not None and o2 != o1):
+            ok = False
+            chk.violation(f"C02|importuse|{p['use']}|{p['place']}|{p['file']}", f"unused-imports on [{shape}]: the import of `{names[rel]}` was {'removed' if removed else 'kept'} "
+                          f"(in use: {e['inuse']}); output before {o1!r} after {o2!r}", {"before": before, "after": after, "program": p})
+    sts[0]["trace"]["events"].append({"ev": "Compare", "what": "an-import-that-is-in-use-was-removed", "equal": ok})
+    verdicts, stats = tracecheck.validate([st_["trace"] for st_ in sts])
+    for s_ in stats:
+        chk.add_tlc(s_)
+    chk.coverage["traces_validated_against_impl"] = chk.coverage.get("traces_validated_against_impl", 0) + len(sts)
+    chk.coverage["importuse_programs"] = len(cases)
+    chk.coverage["importuse_removed"] = removed_n
+    chk.coverage["importuse_code_deviates_from_rule"] = deviates
+    chk.coverage["importuse_deviating_shapes"] = sorted({f"{s_.split('/')[2]}/{s_.split('/')[1]}/{s_.split('/')[4]}:{'removed' if r else 'kept'}" for s_, r in dev_shapes})[:40]
 
 
 def replay(data: dict) -> int:
